@@ -224,6 +224,13 @@ def case(rec, pvl, dialect, key):
     cfg = gen_config(rng, dialect)
     gm = gen_module(rng, dialect, cfg["width"], pvl.collections,
                     plain_names_only=True)
+    if dialect in ("ODL", "PDS3") and rng.random() < 0.15:
+        # a name that is not an ODL parameter name: the encoder must refuse;
+        # if it writes the label anyway the scanner's name rule sees it
+        bad = rng.choice(("A_NAME_THAT_IS_LONGER_THAN_30_CHARS", "a-b", "1a", "a_",
+                          "a.b", "ns:", "^", "a b", "x:y:z", "A2345678901234567890123456789_31"))
+        gm.module.append(bad, 1)
+        rec.count("odl_bad_name_cases")
     before = clone(gm.module)
     wit = {"dialect": dialect, "cfg": cfg, "seed": key}
     try:
@@ -259,7 +266,7 @@ def finish_kwargs(rec, tier):
         "rule[odl-name-form]", "rule[symbol-on-one-line]",
         "rule[units-after-number]", "rule[pds3-no-tab]",
         "wrapped_or_multiline_statements", "single_quoted_strings",
-        "units_expressions", "pds3_group_written_as_object"]
+        "units_expressions", "pds3_group_written_as_object", "odl_bad_name_cases"]
     return dict(required_counters=req,
                 assumptions=["scanner knows only quotes, brackets, <...>, line "
                              "ends and '='; character sets from the "
